@@ -7,6 +7,7 @@ pub mod c09;
 pub mod c10;
 pub mod c11;
 pub mod c12;
+pub mod c13;
 pub mod c14;
 pub mod c15;
 
@@ -20,6 +21,7 @@ pub fn get(id: &str) -> Option<Box<dyn Check>> {
         "C04" => Some(Box::new(c04::C04)),
         "C09" => Some(Box::new(c09::C09)),
         "C10" => Some(Box::new(c10::C10)),
+        "C13" => Some(Box::new(c13::C13)),
         "C05" => Some(Box::new(c05::C05)),
         _ => None,
     }
